@@ -193,6 +193,8 @@ func stylesFor(axis string, n int, d Desc, thorough bool, emit func(Style)) {
 		emit(Style{Place: 2, Cont: []int{nb / 2}, DirCase: 2})
 		emit(Style{Place: 3, Indent: 1, ActCase: 1})
 	}
+	emit(Style{Split: true})
+	emit(Style{Split: true, CRLF: true, Place: 1})
 }
 
 func nearMissBases(axis string, d Desc, thorough bool) []Style {
@@ -286,6 +288,10 @@ func checkDesc(c *runner.Ctx, axis string, n int, d Desc) {
 		// the description itself does not round-trip (reported above): its
 		// near-misses would only repeat that
 		c.Count("descriptions_without_near_misses", 1)
+		return
+	}
+	if len(d.Default) > 0 {
+		// the strict reference reader of the near-miss stage reads SecRule / SecAction only
 		return
 	}
 	for _, st := range nearMissBases(axis, d, c.Thorough()) {
